@@ -101,7 +101,7 @@ schema(introspectablepass.IntrospectablePass, _transformer='Transformer', _block
 from givc.model import named_spec, TypeSpec, parse_spec   # noqa
 
 _opts = parse_spec('list[str]')
-_dopts = TypeSpec('dict', (), False, parse_spec('str?'))
+_dopts = TypeSpec('dict', (), False, parse_spec('str?'), region='annotation.options')
 named_spec('Annotations', TypeSpec('dict', (AP.GtkDocAnnotations,), False, _opts,
                                    keyed={AP.ANN_ARRAY: _dopts, AP.ANN_ATTRIBUTES: _dopts}, region='annotations'))
 named_spec('BlockDict', TypeSpec('dict', (), False, parse_spec('GtkDocCommentBlock'), region='blocks'))
